@@ -53,7 +53,7 @@ def run(c):
     # flags cleared after the immediate resize
     c.r1("immediate-clears-resizing", M, S + "set_resizing", start="re:heed::.*Env::resize$", sink="return", via=0)
     c.r1("immediate-clears-checking", M, S + "finish_resize_checking", start="re:heed::.*Env::resize$", sink="return", via=0)
-    W = M + "::{closure#0}"
+    W = M + "@re:std::thread::(functions::)?spawn$"
     c.r2_edge("waiter-resizes-after-zero", W, [(r"^Eq\(Atomic::load\(.*\.open_txs_count, Ordering::\w+\{\}\), 0\)$", "true")], "re:heed::.*Env::resize$",
          desc="resize waiter thread: Env::resize only after the open-transaction count was observed to be zero")
     c.r1("waiter-clears-flags", W, "re:core::sync::atomic::Atomic(Bool)?::store$|atomic::AtomicBool::store$", start="re:heed::.*Env::resize$", sink="return", via=0)
